@@ -193,12 +193,14 @@ def run(ctx):
     if repo.has_func(UT_, "get_test_stat"):
         gts = repo.func(UT_, "get_test_stat")
         ctx.touch(gts)
-        for n_ in ast.walk(gts.node):
-            if isinstance(n_, ast.Dict) and n_.keys and all(isinstance(A.const_value(k_), str) for k_ in n_.keys):
+        for n_ in repo.walk_with_tables(gts):
+            if isinstance(n_, ast.Dict) and n_.keys and all(k_ is not None and isinstance(A.const_value(k_), str) for k_ in n_.keys):
                 for k_, v_ in zip(n_.keys, n_.values):
                     target = (A.dotted(v_) or "").split(".")[-1]
                     if target in kinds:
                         stat_names.append((A.const_value(k_), kinds[target]))
+                    elif target in ("tmu", "tmu_tilde"):
+                        ctx.note(f"get_test_stat offers {A.const_value(k_)!r} -> {target}: a two-sided statistic the asymptotic p-value formulae of this property do not cover")
                     else:
                         ctx.unrecognised(r1, gts, f"get_test_stat[{A.const_value(k_)!r}]", f"resolves to `{A.short(v_, 30)}`, which is not one of qmu / q0 / qmu_tilde")
     for must in (("q", "q"), ("q0", "q0"), ("qtilde", "qtilde")):
